@@ -16,7 +16,7 @@ import tempfile
 
 PROPERTY = "C14"
 LEVEL = "exploration"
-DATES = ["2015-01-01", "2017-03-01", "2019-07-01", "2021-01-01", "2022-10-01", "2023-07-01", "2024-01-01", "2005-01-01", "2005-07-01", "2010-01-01", "1998-01-01"]
+DATES = ["2015-01-01", "2017-03-01", "2019-07-01", "2021-01-01", "2022-10-01", "2023-07-01", "2024-01-01", "2005-01-01", "2005-07-01", "2010-01-01", "1998-01-01", "2002-07-01"]
 TARGET_SETS = ["default", ["eink_st_y_sn", "soli_st_y_sn"], ["kindergeld_m", "kinderzuschl_m_bg", "wohngeld_m_wthh"],
                ["ges_rente_m", "sozialv_beitr_arbeitnehmer_m"], ["arbeitsl_geld_2_m_bg", "bg_id", "fg_id"],
                ["elterngeld_m", "unterhaltsvors_m", "ges_pflegev_beitr_arbeitnehmer_m"]]
